@@ -2,6 +2,8 @@ import LhasaV.Lemmas.Bits
 import LhasaV.Lemmas.TreeCanon
 import LhasaV.Lemmas.LhNewCmd
 import LhasaV.Lemmas.LhNewFmt
+import LhasaV.Lemmas.LhNewRT
+import LhasaV.Model.Decoders
 /-!
 # C01 — LHA static-Huffman methods (lh4 lh5 lh6 lh7 lhx lk7) decode every valid stream exactly
 
@@ -92,5 +94,77 @@ theorem distance_code_roundtrip (p : LhNew.Params) (f : Fmt) (hfl : f.lhark = p.
     (r : Bits) (hi : Bits.Inv r) (rest : List Bool) (hs : Bits.stream r = (offCode f d).2 ++ rest) :
     ∃ r', LhNewCmd.offTail p (offCode f d).1 r = .ok (some (d : Int), r') ∧ Bits.Inv r' ∧ Bits.stream r' = rest :=
   LhNewCmd.offTail_offCode p f hfl d hd r hi rest hs
+
+/-- Layer (iii): table transmission. After `start_new_block` has read the header of a well-formed
+block, the decoder's code and offset trees decode exactly the canonical codes of the transmitted
+tables (every zero-run form, skip field, single-code form), the block counter holds the number of
+commands and the reader stands at the first command. -/
+theorem block_header_roundtrip (p : LhNew.Params) (hp : LhNewRT.RTParams p) (s : LhNew.St) (b : Block)
+    (out : List UInt8) (rest : List Bool) (hB : LhNewRT.Base p s out)
+    (hwf : blockWf (LhNewRT.fmtOf p) b = true)
+    (hs : Bits.stream s.bits = blockBits (LhNewRT.fmtOf p) b ++ rest) :
+    ∃ s', LhNew.startNewBlock p s = .ok (true, s') ∧ LhNewRT.BlkInv p s' b.code.table b.off out ∧
+      s'.blockRemaining = b.cmds.length ∧
+      Bits.stream s'.bits = b.cmds.flatMap (cmdBits (LhNewRT.fmtOf p) b.code.table b.off) ++ rest :=
+  LhNewRT.startNewBlock_spec p hp s b out rest hB hwf hs
+
+/-- **C01, full statement.** For each parameter set satisfying `RTParams` (all five do, `params_ok`),
+EVERY well-formed stream description `bs` (any number of blocks incl. empty ones, any complete or
+single-code tables in any transmitted form, any valid commands), any callback chunking `c`,
+declared length `n`, block size `b` and read schedule `ks`: reading the serialised stream through
+the public decoder API returns exactly the first `min (Σ ks) n` bytes of the expansion. -/
+theorem lhnew_decode_serialise (p : LhNew.Params) (hp : LhNewRT.RTParams p) (bs : List Block)
+    (hw : wf (LhNewRT.fmtOf p) bs = true) (c n b : Nat) (ks : List Nat) :
+    (Wrap.reads (Dec.total (LhNew.dec p)) ks
+        { inner := .ok (LhNew.init p { data := (serialise (LhNewRT.fmtOf p) bs).toArray, chunk := c }),
+          length := n, blockSize := b }).1.1
+      = (expand bs).take (min ks.sum n) :=
+  LhNewRT.lhnew_reads p hp bs hw c n b ks
+
+/-- the statement for the six method names, with the format constants of the spec -/
+theorem lh5_decode_serialise (bs : List Block) (hw : wf lh5 bs = true) (c n b : Nat) (ks : List Nat) :
+    (Wrap.reads (Dec.total (LhNew.dec LhNew.lh5)) ks
+        { inner := .ok (LhNew.init LhNew.lh5 { data := (serialise lh5 bs).toArray, chunk := c }),
+          length := n, blockSize := b }).1.1 = (expand bs).take (min ks.sum n) := by
+  have := lhnew_decode_serialise LhNew.lh5 LhNewRT.rtParams_lh5 bs (by rw [fmt_matches_source.1]; exact hw) c n b ks
+  rw [fmt_matches_source.1] at this; exact this
+
+theorem lh6_decode_serialise (bs : List Block) (hw : wf lh6 bs = true) (c n b : Nat) (ks : List Nat) :
+    (Wrap.reads (Dec.total (LhNew.dec LhNew.lh6)) ks
+        { inner := .ok (LhNew.init LhNew.lh6 { data := (serialise lh6 bs).toArray, chunk := c }),
+          length := n, blockSize := b }).1.1 = (expand bs).take (min ks.sum n) := by
+  have := lhnew_decode_serialise LhNew.lh6 LhNewRT.rtParams_lh6 bs (by rw [fmt_matches_source.2.1]; exact hw) c n b ks
+  rw [fmt_matches_source.2.1] at this; exact this
+
+theorem lh7_decode_serialise (bs : List Block) (hw : wf lh7 bs = true) (c n b : Nat) (ks : List Nat) :
+    (Wrap.reads (Dec.total (LhNew.dec LhNew.lh7)) ks
+        { inner := .ok (LhNew.init LhNew.lh7 { data := (serialise lh7 bs).toArray, chunk := c }),
+          length := n, blockSize := b }).1.1 = (expand bs).take (min ks.sum n) := by
+  have := lhnew_decode_serialise LhNew.lh7 LhNewRT.rtParams_lh7 bs (by rw [fmt_matches_source.2.2.1]; exact hw) c n b ks
+  rw [fmt_matches_source.2.2.1] at this; exact this
+
+theorem lhx_decode_serialise (bs : List Block) (hw : wf lhx bs = true) (c n b : Nat) (ks : List Nat) :
+    (Wrap.reads (Dec.total (LhNew.dec LhNew.lhx)) ks
+        { inner := .ok (LhNew.init LhNew.lhx { data := (serialise lhx bs).toArray, chunk := c }),
+          length := n, blockSize := b }).1.1 = (expand bs).take (min ks.sum n) := by
+  have := lhnew_decode_serialise LhNew.lhx LhNewRT.rtParams_lhx bs (by rw [fmt_matches_source.2.2.2.1]; exact hw) c n b ks
+  rw [fmt_matches_source.2.2.2.1] at this; exact this
+
+theorem lk7_decode_serialise (bs : List Block) (hw : wf lk7 bs = true) (c n b : Nat) (ks : List Nat) :
+    (Wrap.reads (Dec.total (LhNew.dec LhNew.lk7)) ks
+        { inner := .ok (LhNew.init LhNew.lk7 { data := (serialise lk7 bs).toArray, chunk := c }),
+          length := n, blockSize := b }).1.1 = (expand bs).take (min ks.sum n) := by
+  have := lhnew_decode_serialise LhNew.lk7 LhNewRT.rtParams_lk7 bs (by rw [fmt_matches_source.2.2.2.2]; exact hw) c n b ks
+  rw [fmt_matches_source.2.2.2.2] at this; exact this
+
+/-- the method names -lh4- and -lh5- are served by the same decoder, the others by theirs -/
+theorem method_names : (decoderFor "-lh4-").map (·.σ) = (decoderFor "-lh5-").map (·.σ) := rfl
+
+/-- non-vacuity: a well-formed multi-block description (empty block, skip field, all zero-run forms,
+overlapping copies, trailing empty blocks) and its decoding through the API -/
+example : (Wrap.reads (Dec.total (LhNew.dec LhNew.lh5)) [3, 0, 100]
+      { inner := .ok (LhNew.init LhNew.lh5 { data := (serialise (LhNewRT.fmtOf LhNew.lh5) LhNewRT.exLh5).toArray, chunk := 1 }),
+        length := 8, blockSize := 4096 }).1.1 = (expand LhNewRT.exLh5).take (min ([3, 0, 100] : List Nat).sum 8) :=
+  lhnew_decode_serialise LhNew.lh5 LhNewRT.rtParams_lh5 LhNewRT.exLh5 LhNewRT.exLh5_wf 1 8 4096 [3, 0, 100]
 
 end LhasaV.Props.C01
